@@ -54,6 +54,11 @@ class ExcVal:
         return '%s(%s)' % (self.name, ', '.join([repr(a) for a in self.args] + ['%s=%r' % kv for kv in sorted(self.kwargs.items())]))
 
 
+# parameters of the exceptions of the package (cryptodatahub.common.exception.InvalidValue, cryptoparser.common.exception) that
+# become attributes of the exception object
+EXCEPTION_FIELDS = {'InvalidValue': ('value',), 'NotEnoughData': ('bytes_needed',), 'TooMuchData': ('bytes_needed',)}
+
+
 def exception_values(*names):
     """hook fragment: calls of the named exception classes evaluate to ExcVal objects"""
     def hook(n, ev):
@@ -716,6 +721,11 @@ class Evaluator:
                         if h.name:
                             eargs = e.value.args if isinstance(e, Raised) and isinstance(e.value, ExcVal) else getattr(e, 'args', ())
                             caught = Obj(args=tuple(eargs), what=str(e))
+                            # the data attributes of the package's own errors, by the order of their parameters
+                            ekw = e.value.kwargs if isinstance(e, Raised) and isinstance(e.value, ExcVal) else {}
+                            for i, field in enumerate(EXCEPTION_FIELDS.get(name, ())):
+                                if i < len(eargs) or field in ekw:
+                                    setattr(caught, field, eargs[i] if i < len(eargs) else ekw[field])
                             caught._exception_names = set(bases) | {'Exception', 'BaseException'}
                             caught._original = e
                             self.env[h.name] = caught
